@@ -1590,7 +1590,9 @@ pub fn run_c11(tier: Tier) -> i32 {
     let mut al = StdAlpha::basic(&T2);
     al.blocks = vec![15, 1740, 1860, 3599, 3600, 3660];
     al.liquidators = vec![];
-    let alpha = al.acts();
+    let mut alpha = al.acts();
+    // a block that is not a whole number of seconds after the previous one, just short of the funding time
+    alpha.push(Act::Blk { blocks: 1, secs: 3599, ms: 600 });
     let seeds = vec![vec![], seed_funded(), seed_two_fundings(), seed_vault_drained(), seed_funding_exceeds_margin(), seed_long_lived_market()];
     let mut exps = vec![];
     match tier {
